@@ -2,6 +2,7 @@ package main
 
 import (
 	"fmt"
+	"sync"
 	"go/constant"
 	"go/token"
 	"go/types"
@@ -139,6 +140,7 @@ type FuncVC struct {
 	assertBlk []int // block in which each assertion was emitted (-1: before the body)
 	inBlocks  bool
 	ancCache  map[int]map[int]bool
+	ancMu     sync.Mutex
 	obls      []*Obligation
 	nfresh    int
 
@@ -244,6 +246,8 @@ func (fv *FuncVC) assert(s string) {
 // ancestors: blocks from which b is reachable without taking a back edge
 // (b included).
 func (fv *FuncVC) ancestors(b *ssa.BasicBlock) map[int]bool {
+	fv.ancMu.Lock()
+	defer fv.ancMu.Unlock()
 	if a, ok := fv.ancCache[b.Index]; ok {
 		return a
 	}
